@@ -933,8 +933,12 @@ class QasmVisitor:
 
         operation.argument = qasm3_ast.FloatLiteral(value=evaluated_arg)
         # no qubit evaluation to be done here
-        # if args are provided in global scope, then we should raise error
-        if self._in_global_scope() and len(operation.qubits) != 0:
+        # if args are provided in global scope (or in a block of it), then we should raise error
+        enclosing_context = next(
+            (context for context in reversed(self._context) if context != Context.BLOCK),
+            Context.GLOBAL,
+        )
+        if enclosing_context == Context.GLOBAL and len(operation.qubits) != 0:
             raise_qasm3_error(
                 f"Qubit arguments not allowed for phase operation {str(operation)} in global scope",
                 span=operation.span,
